@@ -28,7 +28,7 @@ def fd_specs(ctx):
         mode = ["none", "2-point", "3-point", "cs"][i % 4]
         fam = fams[int(rng.integers(len(fams)))] if mode != "cs" else problems.CS_OK[int(rng.integers(len(problems.CS_OK)))]
         s = {"family": fam, "n": int(rng.integers(2 if fam == "rosenbrock" else 1, 7)), "pseed": int(rng.integers(1 << 30)),
-             "jac": mode, "box_kinds": ["lo", "up", "box", "box", "box"], "start": ["face", "vertex", "interior"][i % 3],
+             "jac": mode, "box_kinds": ["lo", "up", "box", "box", "box", "fix"], "start": ["face", "vertex", "interior"][i % 3],
              "kwargs": {"maxcor": int(rng.choice([1, 3, 10])), "ftol": float(rng.choice([0.0, 1e-9])),
                         "maxiter": int(rng.choice([5, 20, 60])), "maxfun": int(rng.choice([50, 2000])),
                         "maxls": 20}}
@@ -72,7 +72,9 @@ def agree(spec):
         gtol_fd = 1e-10
     if mode != "cs":      # truncation error of the scheme + round-off of the differences, eps*|f|/h
         gtol_fd += 200.0 * np.finfo(float).eps * (1.0 + abs(rfd.fun)) / h
-    gerr = float(np.max(np.abs(np.asarray(rfd.jac, float) - gex)) / gscale)
+    # (along a variable with lb == ub nothing can be differenced and nothing is needed: not compared)
+    mov = np.asarray(p.lb) < np.asarray(p.ub)
+    gerr = float(np.max(np.abs(np.asarray(rfd.jac, float) - gex)[mov]) / gscale) if mov.any() else 0.0
     f = {"fun_matches_exact_gradient_solution": bool(abs(rfd.fun - rex.fun) <= TOL[mode] * scale),
          "gradient_accurate_for_the_scheme": bool(gerr <= gtol_fd),
          "x_in_box": bool(np.all(p.lb <= rfd.x) and np.all(rfd.x <= p.ub))}
@@ -87,7 +89,7 @@ def agree_specs(ctx):
         mode = ["none", "2-point", "3-point", "cs"][i % 4]
         out.append({"family": (problems.CONVEX if mode != "cs" else ["qp", "qp4"])[int(rng.integers(3 if mode != "cs" else 2))], "n": int(rng.integers(2, 9)),
                     "pseed": int(rng.integers(1 << 30)), "jac": mode, "cond": float(10 ** rng.uniform(0, 3)),
-                    "box_kinds": ["lo", "up", "box", "box", "free"], "start": ["face", "vertex", "interior"][i % 3],
+                    "box_kinds": ["lo", "up", "box", "box", "free", "fix"], "start": ["face", "vertex", "interior"][i % 3],
                     "kwargs": {"maxcor": int(rng.choice([3, 10])), "ftol": 0.0, "gtol": 1e-6, "maxiter": 400, "maxfun": 20000}})
         if i % 5 == 4:
             out[-1]["far_start"] = float(rng.choice([2e3, 2e4]))
